@@ -51,6 +51,7 @@ func (l *Lexer) skipAction() bool {
 			}
 		case '\n':
 			l.line++
+			l.lineOffset = l.scanOffset
 		}
 
 		// Scan the next character.
@@ -67,6 +68,10 @@ func (l *Lexer) skipAction() bool {
 			l.ch = r
 			if skipNext {
 				skipNext = false
+				if l.ch == '\n' {
+					l.line++
+					l.lineOffset = l.scanOffset
+				}
 				goto next
 			}
 		} else {
